@@ -123,6 +123,7 @@ def run_check(prop, tier):
         # triage failures: class, known findings, minimise + gate the rest
         by_class = {}
         machinery = []
+        hang_confirm = {}
         for job, f in failures:
             cls, excerpt = report.classify(f['res'], prop)
             if cls is None:
@@ -131,17 +132,25 @@ def run_check(prop, tier):
                 machinery.append(cls)
                 continue
             if f['res'].get('status') == 'hang':
-                # re-confirm a hang once with three times the limit before believing it
-                plan = dict(job['plan'])
-                if f['case'] is not None:
-                    plan = dict(plan, cases=[plan['cases'][f['case']]])
-                    plan['case_timeout_s'] = 3 * plan.get('case_timeout_s', 20)
-                plan['timeout_s'] = 3 * plan.get('timeout_s', 30)
-                plan.pop('from', None)
-                r2 = pool.workers[0].run(plan)
-                c2, _ = report.classify(r2, prop)
-                if c2 is None:
-                    notes.append('hang not confirmed at 3x limit: ' + cls)
+                # re-confirm a hang with three times the limit before believing it (the first few of each class only:
+                # every confirmation costs a full timeout)
+                tried = hang_confirm.setdefault(cls, [0, 0])
+                if tried[1] == 0 and tried[0] < 3:
+                    tried[0] += 1
+                    plan = dict(job['plan'])
+                    if f['case'] is not None:
+                        plan = dict(plan, cases=[plan['cases'][f['case']]])
+                        plan['case_timeout_s'] = 3 * plan.get('case_timeout_s', 20)
+                    plan['timeout_s'] = 3 * plan.get('timeout_s', 30)
+                    plan.pop('from', None)
+                    r2 = pool.workers[0].run(plan)
+                    c2, _ = report.classify(r2, prop)
+                    if c2 is None:
+                        notes.append('hang not confirmed at 3x limit: ' + cls)
+                        continue
+                    tried[1] = 1
+                elif tried[1] == 0:
+                    notes.append('hang class never confirmed at 3x limit, dropped: ' + cls)
                     continue
             by_class.setdefault(cls, []).append((job, f, excerpt))
 
